@@ -317,6 +317,15 @@ class is_flag_active_visitor<Flag, flag_and>""")]),
         {
             return HANDLED_TRUE;
         }""")]),
+ dict(name='revert-d25-fct-end-events-own-table-only', prop='C11', rule='C11.end-events', edits=[('include/boost/msm/backmp11/favor_compile_time.hpp', """        using event_set = mp11::mp_set_union<
+            generate_event_set<
+                typename StateMachine::front_end_t::transition_table>,
+            mp11::mp_apply<
+                mp11::mp_append,
+                mp11::mp_transform<
+                    end_interrupt_events,
+                    typename StateMachine::internal::state_set>>>;""", """        using event_set = generate_event_set<
+            typename StateMachine::front_end_t::transition_table>;""")]),
  dict(name='revert-d20-puml-terminate-suffix', prop='C14', rule='C14.puml', edits=[('include/boost/msm/front/puml/puml.hpp', """cleanup_token(stt().substr(endl_before_pos + 1, arrow_pos - endl_before_pos - 1)) == state_name())""", """cleanup_token(stt().substr(state_pos, arrow_pos - state_pos)) == state_name())""")]),
  dict(name='flagfold-back11-early-break', prop='C17', rule='C17.pure', edits=[(B11, """            res = typename BinaryOp::type() (res,(*flags_entries[ m_states[i] ])(*this));""", """            res = typename BinaryOp::type() (res,(*flags_entries[ m_states[i] ])(*this));
             if (res) break;""")]),
